@@ -321,6 +321,7 @@ struct SampleScenario : Scenario {
                     size_t si = r.below(8); Bn a = Bn::from_hex(SP[si][0]), bb = Bn::from_hex(SP[si][1]); a = Bn::sub(a, Bn(r.below(3)));
                     uint8_t hb[96]; bb.to_be(hb, 48); a.to_be(hb + 48, 48); h = hex(hb, 96);
                 }
+                if (g == 0 && r.chance(1, 10)) h = long_walk_digest((unsigned) r.below(4));   // a walk of 31..34 increments
                 int idm = r.chance(1, 2); p.ops.push_back({"HASHC", {g, idm}, {h}});
                 // related consecutive inputs: the next hash differs from this one only in its trailing (or leading) bytes
                 if (r.chance(1, 2)) { std::string h2 = h; size_t at = r.chance(3, 4) ? h2.size() - 2 - 2 * r.below(16) : 2 * r.below(8); h2[at] = h2[at] == 'f' ? '0' : 'f'; p.ops.push_back({"HASHC", {g, idm}, {h2}}); }
